@@ -134,7 +134,9 @@ Definition update_conflict (d u : json) : bool :=
    None over a container is ignored, and a list that is updated in place and does not shrink calls
    extend(), whose _load_and_save context SAVES THE ROOT in the middle of the update: the first
    component of the result lists the root values at those moments ([ctx] rebuilds the root). *)
-Fixpoint upd_val (ctx : json -> json) (ex nw : json) {struct nw} : list json * json :=
+(* [pre = true]: the snapshots are the root values just BEFORE each extend() (what is in memory when the
+   extend's _load_and_save fails to find its lock), [pre = false]: just after (when it saves) *)
+Fixpoint upd_gen (pre : bool) (ctx : json -> json) (ex nw : json) {struct nw} : list json * json :=
   if py_eq nw ex then ([], ex)
   else
     match nw with
@@ -150,7 +152,7 @@ Fixpoint upd_val (ctx : json -> json) (ex nw : json) {struct nw} : list json * j
                      match alookup k cur with
                      | None => go no' (cur ++ [(k, nv)]) snaps
                      | Some ev =>
-                         let '(s, v') := upd_val (fun sub => ctx (JObj (aset k sub cur))) ev nv in
+                         let '(s, v') := upd_gen pre (fun sub => ctx (JObj (aset k sub cur))) ev nv in
                          go no' (aset k v' cur) (snaps ++ s)
                      end
                  end) no eo [] in
@@ -164,10 +166,10 @@ Fixpoint upd_val (ctx : json -> json) (ex nw : json) {struct nw} : list json * j
               (fix go (nl el done : list json) (snaps : list json) {struct nl} : list json * list json :=
                  match nl, el with
                  | nv :: nl', ev :: el' =>
-                     let '(s, v') := upd_val (fun sub => ctx (JArr (done ++ sub :: el'))) ev nv in
+                     let '(s, v') := upd_gen pre (fun sub => ctx (JArr (done ++ sub :: el'))) ev nv in
                      go nl' el' (done ++ [v']) (snaps ++ s)
                  | [], _ :: _ => (snaps, done)
-                 | _, [] => let l := done ++ nl in (snaps ++ [ctx (JArr l)], l)
+                 | _, [] => let l := done ++ nl in (snaps ++ [ctx (JArr (if pre then done else l))], l)
                  end) nl el [] [] in
             (snaps, JArr res)
         | _ => ([], nw)
@@ -175,6 +177,8 @@ Fixpoint upd_val (ctx : json -> json) (ex nw : json) {struct nw} : list json * j
     | JNull => match ex with JObj _ | JArr _ => ([], ex) | _ => ([], nw) end
     | _ => ([], nw)
     end.
+
+Definition upd_val : (json -> json) -> json -> json -> list json * json := upd_gen false.
 
 Definition upd_root (ex nw : json) : list json * json := upd_val (fun x => x) ex nw.
 
@@ -268,6 +272,11 @@ Definition job_dirs (f : fs) (wsd : path) : list str :=
    recursive listing of the other files *)
 Record jview := mkJV { v_id : str; v_sp : option json; v_doc : option json; v_files : list (path * list N) }.
 
+(* what a freshly started process does with the handles it unpickled (k = 0 / 1) *)
+Inductive fop :=
+| FEdit (k : nat) (p : list pstep) (a : eact) | FInit (k : nat) | FDocSet (k : nat) (key : str) (v : json)
+| FSp (k : nat) | FCached (k : nat) | FIdPath (k : nat).
+
 Inductive op :=
 | ONewSession (root : path)
 | OOpenSp (s : nat) (sp : json)
@@ -301,12 +310,17 @@ Inductive op :=
 | ODocSet (h : nat) (k : str) (v : json)
 | OUpdateCache (s : nat)
 | OCheck (s : nat)
-| OSnap.       (* raw walk of all workspaces + the view through a fresh Project of every root + check() *)
+| OSnap        (* raw walk of all workspaces + the view through a fresh Project of every root + check() *)
+(* --- pickling several handles in ONE pickle (they keep sharing what they shared) *)
+| OPickle2 (h1 h2 : nat)                       (* restored in this process: two new handles *)
+| OFresh (h1 : nat) (h2 : option nat) (fs : list fop).   (* restored in a freshly started process, which then runs
+                                                           [fs] through the restored handles (0, 1) and exits *)
 
 Inductive oval :=
 | VUnit | VBool (b : bool) | VNum (n : N) | VStr (s : str) | VStrs (l : list str) | VJson (j : json)
 | VIdPath (i : str) (p : path) | VExn (e : exn) | VTree (t : fs) | VTreeSame
-| VSnap (t : fs) (vs : list (path * list jview * bool)) | VSnapSame | VOptNum (n : option N).
+| VSnap (t : fs) (vs : list (path * list jview * bool)) | VSnapSame | VOptNum (n : option N)
+| VList (l : list oval).
 
 
 Section WS.
@@ -547,7 +561,12 @@ Section WS.
       end
     else
       (* reset(): _update has already merged the new data in memory when _thread_lock raises KeyError *)
-      (set_data w1 ci (snd (upd_root (c_data (getC w1 ci)) new)), inr (FExn EKeyError)).
+      (* ... unless a list is extended on the way: that extend() itself looks the lock up first, and the update
+         stops there, half done *)
+      (set_data w1 ci (match fst (upd_gen true (fun x => x) (c_data (getC w1 ci)) new) with
+                       | half :: _ => half
+                       | [] => snd (upd_root (c_data (getC w1 ci)) new)
+                       end), inr (FExn EKeyError)).
 
   (* Job.update_statepoint(update, overwrite) *)
   Definition update_statepoint (w : world) (hi : nat) (u : json) (overwrite : bool) : world * res unit :=
@@ -643,12 +662,9 @@ Section WS.
               | Some di => set_HD (add_D w3' (getD w di)) hj (Some (length (w_ds w3')))
               | None => w3'
               end in
-    if pickle then
-      match sp_access w3 hj with
-      | (_, inr e) => (w, inr e)
-      | (w4, inl ci) => (add_job w4 ci hj, inl hj)
-      end
-    else (w3, inl hj).
+    (* [pickle]: since fix cefd325 __setstate__ no longer touches the state point - the restored handle is
+       already the one entry of its restored state point's _jobs - so unpickling is total *)
+    (w3, inl hj).
 
   (* pickle.dumps(job) goes through __getstate__ (state point of the original instantiated first, fix 0894ce6);
      copy.deepcopy uses __deepcopy__, which does not *)
@@ -726,7 +742,8 @@ Section WS.
         | (w1, inr e) => (w1, inr e)
         | (w1, inl _) =>
             let di := length (w_ds w1) in
-            (set_HD (add_D w1 (docfile w1 (getH w1 hi), JObj [])) hi (Some di), inl di)
+            (* the constructor of the document object makes its entry in the (per-process, per-class) lock registry *)
+            (lock_add (set_HD (add_D w1 (docfile w1 (getH w1 hi), JObj [])) hi (Some di)) (docfile w1 (getH w1 hi)), inl di)
         end
     end.
 
@@ -741,6 +758,9 @@ Section WS.
 
   Definition doc_save (w : world) (di : nat) : world * res unit :=
     let '(p, d) := getD w di in
+    (* every write first looks the file name up in the lock registry (missing for an object that was unpickled in a
+       freshly started process) *)
+    if negb (lock_has w p) then (w, inr (FExn EKeyError)) else
     match json_write (w_fs w) p d with
     | FErr e => (w, inr (FOs e))
     | FOk f => (set_fs w f [EvWrite (tmp_of p); EvRename (tmp_of p) p], inl tt)
@@ -1011,7 +1031,40 @@ Section WS.
     match r with inl hi => VStr (h_id (getH w hi)) | inr e => VExn (exn_of e) end.
 
   (* [q]: length of the trace at the previous OQuiet *)
-  Definition step (w : world) (q : nat) (o : op) : world * nat * oval :=
+  (* pickle.loads(pickle.dumps([handles])): one restored Project per distinct Project, one restored state point per
+     distinct state point object (with the restored handles as its _jobs), own document objects *)
+  Fixpoint amap_find (k : nat) (m : list (nat * nat)) : option nat :=
+    match m with [] => None | (a, b) :: m' => if Nat.eqb a k then Some b else amap_find k m' end.
+
+  Fixpoint restore_many (w : world) (hs : list nat) (sm cm : list (nat * nat)) (acc : list nat)
+    : world * res (list nat) :=
+    match hs with
+    | [] => (w, inl acc)
+    | hi :: rest =>
+        match sp_access w hi with                      (* __getstate__ of the original *)
+        | (w1, inr e) => (w1, inr e)
+        | (w1, inl ci) =>
+            let h := getH w1 hi in
+            let '(w2, sj, sm') := match amap_find (h_s h) sm with
+                                  | Some sj => (w1, sj, sm)
+                                  | None => (add_S w1 (getS w1 (h_s h)), length (w_ss w1), (h_s h, length (w_ss w1)) :: sm)
+                                  end in
+            let '(w3, cj, cm') := match amap_find ci cm with
+                                  | Some cj => (w2, cj, cm)
+                                  | None => (add_CF w2 (mkC (c_data (getC w2 ci)) []) (getCF w2 ci), length (w_cs w2),
+                                             (ci, length (w_cs w2)) :: cm)
+                                  end in
+            let hj := length (w_hs w3) in
+            let w4 := add_job (add_H w3 (mkH sj (h_id h) (h_cached h) (Some cj) (h_dk h))) cj hj in
+            let w5 := match getHD w1 hi with
+                      | Some di => set_HD (add_D w4 (getD w4 di)) hj (Some (length (w_ds w4)))
+                      | None => w4
+                      end in
+            restore_many w5 rest sm' cm' (acc ++ [hj])
+        end
+    end.
+
+  Definition step_base (w : world) (q : nat) (o : op) : world * nat * oval :=
     match o with
     | ONewSession root => let '(w1, r) := new_session w root in
                           (w1, q, match r with inl _ => VUnit | inr e => VExn (exn_of e) end)
@@ -1073,11 +1126,59 @@ Section WS.
     | OUpdateCache s => let '(w1, r) := update_cache w s in
                         (w1, q, match r with inl n => VOptNum n | inr e => VExn (exn_of e) end)
     | OCheck s => (w, q, if check_ok (w_fs w) (s_root (getS w s)) then VUnit else VExn EJobsCorrupted)
+    | OPickle2 _ _ | OFresh _ _ _ => (w, q, VUnit)        (* handled by [step] *)
     | OSnap =>
         (* the fresh Project's handles construct a _StatePointDict for every listed job: their file names
            enter the (process-wide) lock registry *)
         (fold_left (fun w' r => fold_left (fun w'' i => lock_add w'' (r ++ [WS; i; SPF])) (job_dirs (w_fs w) (r ++ [WS])) w')
                    (roots w) w, q, snap w)
+    end.
+
+  Definition fop_op (nhs : list nat) (f : fop) : op :=
+    let hk k := nth k nhs 0%nat in
+    match f with
+    | FEdit k p a => OEdit (hk k) p a
+    | FInit k => OInit (hk k) false
+    | FDocSet k key v => ODocSet (hk k) key v
+    | FSp k => OSp (hk k)
+    | FCached k => OCached (hk k)
+    | FIdPath k => OIdPath (hk k)
+    end.
+
+  Fixpoint run_fops (w : world) (q : nat) (nhs : list nat) (fs : list fop) : world * list oval :=
+    match fs with
+    | [] => (w, [])
+    | f :: rest =>
+        let '(w1, q1, out) := step_base w q (fop_op nhs f) in
+        let '(w2, outs) := run_fops w1 q1 nhs rest in
+        (w2, out :: outs)
+    end.
+
+  Definition with_locks (w : world) (l : list path) : world :=
+    mkW (w_fs w) (w_ss w) (w_hs w) (w_cs w) (w_tr w) (w_hd w) (w_ds w) l (w_cf w).
+  (* the child process is gone: its Project objects and handles with it (cells and documents stay as garbage) *)
+  Definition forget (w : world) (ns nh : nat) : world :=
+    mkW (w_fs w) (firstn ns (w_ss w)) (firstn nh (w_hs w)) (w_cs w) (w_tr w) (firstn nh (w_hd w)) (w_ds w)
+        (w_locks w) (w_cf w).
+
+  Definition step (w : world) (q : nat) (o : op) : world * nat * oval :=
+    match o with
+    | OPickle2 h1 h2 =>
+        match restore_many w [h1; h2] [] [] [] with
+        | (w1, inr e) => (w1, q, VExn (exn_of e))
+        | (w1, inl nhs) => (w1, q, VStrs (map (fun h => h_id (getH w1 h)) nhs))
+        end
+    | OFresh h1 h2 fs =>
+        match restore_many w (h1 :: match h2 with Some h => [h] | None => [] end) [] [] [] with
+        | (w1, inr e) => (w1, q, VExn (exn_of e))
+        | (w1, inl nhs) =>
+            (* a freshly started interpreter: its lock registry is empty (an unpickled _StatePointDict does not
+               run __init__, which is where the entry would be made) *)
+            let saved := w_locks w1 in
+            let '(w2, outs) := run_fops (with_locks w1 []) q nhs fs in
+            (forget (with_locks w2 saved) (length (w_ss w)) (length (w_hs w)), q, VList outs)
+        end
+    | _ => step_base w q o
     end.
 
   (* ------------------------------------------------------------------ comparing observations *)
@@ -1166,6 +1267,13 @@ Section WS.
     | VSnap t vs, VSnap t' vs' => tree_match t t' && roots_same vs vs'
     | VSnap t vs, VSnapSame => tree_match t prev && Nat.eqb pn nroots
     | VOptNum a, VOptNum b => match a, b with Some x, Some y => N.eqb x y | None, None => true | _, _ => false end
+    | VList a, VList b =>
+        (fix go (a b : list oval) : bool :=
+           match a, b with
+           | [], [] => true
+           | x :: a', y :: b' => oval_match prev x y && go a' b'
+           | _, _ => false
+           end) a b
     | _, _ => oval_match prev m i
     end.
 
